@@ -319,6 +319,93 @@ Proof.
 Qed.
 
 (* ------------------------------------------------------------------------------------------ *)
+(* a process killed between two writes: identifiers stay unique whatever the cut *)
+
+(* what holds of the database alone, whatever the counter in memory says *)
+Definition ids_stored (r : rocks) : Prop :=
+  Forall (fun e => 1 <= snd e /\ snd e <= lane_counter r) (lane_ids r) /\ NoDup (map snd (lane_ids r)).
+
+Lemma ids_inv_stored r : ids_inv r -> ids_stored r.
+Proof. intros (I1 & I2 & I3). split; [|exact I3]. rewrite I1. exact I2. Qed.
+
+Lemma rocks_call_lane r id o :
+  lane_counter (fst (rocks_call r id o)) = lane_counter r /\ lane_ids (fst (rocks_call r id o)) = lane_ids r.
+Proof. destruct o; split; reflexivity. Qed.
+
+Lemma ids_stored_call r id o : ids_stored r -> ids_stored (fst (rocks_call r id o)).
+Proof. unfold ids_stored. destruct (rocks_call_lane r id o) as [-> ->]. auto. Qed.
+
+Lemma rocks_partial_stored r k o : ids_inv r -> ids_stored (rocks_partial r k o).
+Proof.
+  intros HI. pose proof (ids_inv_stored r HI) as HS. destruct HI as (I1 & I2 & I3).
+  unfold rocks_partial. destruct (agent_of o) as [[a n]|]; [|exact HS].
+  destruct (mem_b a (open_agents r)); [|exact HS].
+  destruct (bget (lane_name a n) (lane_ids r)) as [id|] eqn:E.
+  - destruct (1 <=? k); [now apply ids_stored_call|exact HS].
+  - (* a new name: the counter first, then the name *)
+    assert (S1 : ids_stored (with_lane r (lane_counter r + 1) (lane_ids r))).
+    { split; cbn [with_lane lane_counter lane_ids]; [|exact I3].
+      eapply Forall_impl; [|exact I2]. cbn beta. intros e [A B]. split; lia. }
+    assert (S2 : ids_stored (with_lane (with_lane r (lane_counter r + 1) (lane_ids r)) (lane_counter r + 1)
+                               (bput (lane_name a n) (mem_count r + 1) (lane_ids r)))).
+    { split; cbn [with_lane lane_counter lane_ids].
+      - apply bput_fresh_forall; [exact E| |cbn [snd]; lia].
+        eapply Forall_impl; [|exact I2]. cbn beta. intros e [A B]. split; lia.
+      - rewrite bput_fresh_snd by exact E. apply NoDup_snoc; [exact I3|].
+        intros C. apply in_map_iff in C as ([k0 v] & Ev & Ik). cbn [snd] in Ev. subst v.
+        rewrite Forall_forall in I2. specialize (I2 _ Ik). cbn [snd] in I2. lia. }
+    destruct (1 <=? k) eqn:K1.
+    + destruct (2 <=? k) eqn:K2; cbn [with_lane lane_counter lane_ids].
+      * destruct (3 <=? k); [now apply ids_stored_call|exact S2].
+      * destruct (3 <=? k) eqn:K3; [apply N.leb_le in K3; apply N.leb_gt in K2; lia|exact S1].
+    + destruct (2 <=? k) eqn:K2; [apply N.leb_le in K2; apply N.leb_gt in K1; lia|].
+      destruct (3 <=? k) eqn:K3; [apply N.leb_le in K3; apply N.leb_gt in K1; lia|exact HS].
+Qed.
+
+Lemma reopen_inv r : ids_stored r -> ids_inv (fst (rocks_step r Reopen)).
+Proof. intros [S1 S2]. cbn [rocks_step fst]. repeat split; cbn [lane_counter mem_count lane_ids]; auto. Qed.
+
+Lemma rocks_kill_inv r k o : ids_inv r -> ids_inv (rocks_kill r k o).
+Proof. intros H. unfold rocks_kill. apply reopen_inv. now apply rocks_partial_stored. Qed.
+
+Lemma rocks_hstep_inv r h : ids_inv r -> ids_inv (fst (rocks_hstep r h)).
+Proof. destruct h as [o|k o]; cbn [rocks_hstep fst]; [apply rocks_step_ids_inv|apply rocks_kill_inv]. Qed.
+
+Fixpoint hrun_state (r : rocks) (hs : list hop) : rocks :=
+  match hs with [] => r | h :: t => hrun_state (fst (rocks_hstep r h)) t end.
+
+Theorem ids_inv_reachable_with_kills hs : ids_inv (hrun_state rocks0 hs).
+Proof.
+  assert (forall r, ids_inv r -> ids_inv (hrun_state r hs)) as G.
+  { induction hs as [|h t IH]; cbn [hrun_state]; intros r H; auto. apply IH. now apply rocks_hstep_inv. }
+  apply G, ids_inv0.
+Qed.
+
+(* however often and wherever the process is killed, two different names never share an identifier *)
+Theorem ids_never_collide_with_kills hs name1 name2 id :
+  let r := hrun_state rocks0 hs in
+  bget name1 (lane_ids r) = Some id -> bget name2 (lane_ids r) = Some id -> name1 = name2.
+Proof.
+  intros r H1 H2. destruct (ids_inv_reachable_with_kills hs) as (_ & _ & ND). eapply nodup_snd_unique; eauto.
+Qed.
+
+(* a name that has its identifier in the database keeps it through a kill: an identifier is never reassigned *)
+Theorem id_survives_a_kill r k o name id :
+  bget name (lane_ids r) = Some id -> bget name (lane_ids (rocks_kill r k o)) = Some id.
+Proof.
+  intros H. unfold rocks_kill. cbn [rocks_step fst lane_ids].
+  unfold rocks_partial. destruct (agent_of o) as [[a n]|]; [|exact H].
+  destruct (mem_b a (open_agents r)); [|exact H].
+  destruct (bget (lane_name a n) (lane_ids r)) as [id0|] eqn:E.
+  - destruct (1 <=? k); [|exact H]. now rewrite (proj2 (rocks_call_lane r id0 o)).
+  - assert (Hp : bget name (bput (lane_name a n) (mem_count r + 1) (lane_ids r)) = Some id).
+    { rewrite bget_bput_other; [exact H|]. destruct (bytes_eqb name (lane_name a n)) eqn:EN; [|reflexivity].
+      apply bytes_eqb_eq in EN. subst. congruence. }
+    destruct (1 <=? k), (2 <=? k), (3 <=? k); cbn [with_lane lane_ids];
+      rewrite ?(proj2 (rocks_call_lane _ _ _)); cbn [with_lane lane_ids]; assumption.
+Qed.
+
+(* ------------------------------------------------------------------------------------------ *)
 (* isolation inside the map keyspace: an operation on lane id' leaves the scan of lane id alone *)
 
 Definition scan_pred (id : N) (e : bytes * bytes) : bool :=
